@@ -346,6 +346,10 @@ func bases(thorough bool) []base {
 		{"12-getcert-only[rsa]", world.Cfg{}, world.Cfg{Cred: "none", GetCertSNI: "rsa"}},
 		{"12-static-ec+getcert[rsa]", world.Cfg{}, world.Cfg{Cred: "ecdsa", GetCertSNI: "rsa"}},
 		{"12-static-rsa+getcert[ed25519]", world.Cfg{}, world.Cfg{Cred: "rsa", GetCertSNI: "ed25519"}},
+		// a callback whose answer changes between the library's probe and the flight (rotated certificate store)
+		{"12-getcert-switch[rsa,ed25519]", world.Cfg{}, world.Cfg{Cred: "none", GetCertSwitch: [2]string{"rsa", "ed25519"}}},
+		{"12-getcert-switch[ed25519,rsa]", world.Cfg{}, world.Cfg{Cred: "none", GetCertSwitch: [2]string{"ed25519", "rsa"}}},
+		{"12-getcert-switch[rsa,ecdsa]", world.Cfg{}, world.Cfg{Cred: "none", GetCertSwitch: [2]string{"rsa", "ecdsa"}}},
 	}
 	if thorough {
 		epsk := world.Cfg{Cred: "psk", PSK: pskKey, Suites: []dtls.CipherSuiteID{sEPSKCBC}}
